@@ -122,7 +122,11 @@ class NodeWalk:
         self.p = p
         self.ci = ci
         self.methods = p.methods(ci.key)
-        atomic = set(self.methods)          # node helpers are recorded as `call` events, never inlined
+        # the helpers the rules know by name are recorded as `call` events; private helpers that no rule refers to are part of
+        # their caller (inlined, sub-generators through `yield from`), so that an extract-method refactoring changes nothing
+        from .normalise import anchor_vocabulary, is_private
+        vocab = anchor_vocabulary()
+        atomic = {m for m in self.methods if not (is_private(m) and m not in vocab)}
         self.ex = paths.Explorer(p, ci.key, tracked=set(), atomic=atomic, proto=PROTO, unroll=unroll, budget=budget,
                                  track_attrs=True, stmt_hook=_hooks, relevant=_relevant, interrupt_edges=False)
         self.roots: Dict[str, List[paths.Path]] = {}
